@@ -201,13 +201,31 @@ ROUND3 = {
 }
 
 
+ROUND4 = {
+    "C01": " 1100-1200 distinct keywords per scheme searched two or three times on one object; document-number identifiers; PiBas identifiers of mixed lengths.",
+    "C02": " A PRF hook reads the dummy keywords CT14/ANSS16 pad with during the real EDBSetup: they must be fresh in every setup.",
+    "C04": " The second build also runs in another thread or after 11 s to a day of idle time (process clocks pushed forward).",
+    "C06": " Every second shard of every check runs under python -O (assert statements stripped).",
+    "C07": " Marathons of 66000 searches on one index; rolling re-indexes of a changing collection by one object with dropped indexes.",
+    "C10": " The service's scheme varies per shard; unknown message types include plausible names with damaging payloads.",
+    "C12": " Idle time: the event loop's clock is pushed forward (12 s once, or two shorter pauses, at every event boundary); four-connection walks; schedules that exposed the admission-order defect are kept.",
+    "C14": " One cipher object shared by four threads with forced switch points; encryptions in other threads and after idle time; whole-mebibyte messages.",
+    "C15": " Cipher / PRP objects shared by four threads with forced switch points; the caller overwrites returned bit strings.",
+    "C16": " PRF and hash objects shared by four threads with forced switch points; key/message boundary-shift pairs.",
+    "C17": " Lazy partitions consumed alternately; identifiers that start with BOM / zero-width / NUL characters in the utf8 format.",
+    "C18": " Overlapping iterations over one object, operands used twice, augmented assignment with aliases.",
+    "C19": " Live iterators interleaved with writes; with-blocks that end in an exception.",
+    "C20": " Values that are themselves serialised objects; sibling dictionaries with temp-like names closed in turn.",
+}
+
+
 def main():
     checks = []
     for pid in ALL:
         if pid not in CHECKS:
             continue
         cat, tech, text, note, ref = CHECKS[pid]
-        text = text + ROUND3.get(pid, "")
+        text = text + ROUND3.get(pid, "") + ROUND4.get(pid, "")
         checks.append({
             "property_id": pid,
             "quick_cmd": f"./check {pid} quick",
